@@ -4,20 +4,30 @@
 (* nonce for EVERY multiset of up to SweepN signature entries.  mode        *)
 (* "hist": every sequence of up to GenLen steps over a reduced alphabet     *)
 (* (burns, mints with a good / short quorum, repeated nonces, wrong         *)
-(* receiver, low amount, deletion and re-registration of a3).               *)
+(* receiver, low amount, deletion and re-registration of a3, and the owner  *)
+(* moving min_burn / min_mint apart - burn values are named by where they   *)
+(* lie relative to BOTH minimums as configured at that point).              *)
 (* Steps are printed in the driver's vocabulary (harness/drivers/bridge).   *)
 EXTENDS MC_Bridge, Json
 
-CONSTANTS GenModes, GenLen, SweepN, GBurns, GMints, GAuthOps
+CONSTANTS GenModes, GenLen, SweepN, GBurns, GMints, GAuthOps, GCfgs
 VARIABLES hist, mode
 gvars == <<vars, hist, mode>>
 
 KindName == [valid |-> "v", forged |-> "f", garbage |-> "g"]
 Digit == [a1 |-> "1", a2 |-> "2", a3 |-> "3"]
 SigName(e) == IF e.a = Stranger THEN "u" ELSE KindName[e.k] \o Digit[e.a]
-ValName(v) == IF v = 0 THEN "zero" ELSE IF v < MinBurn THEN "below" ELSE IF v = MinBurn THEN "min" ELSE "above"
-AmtName(a) == IF a >= MinMint /\ a >= MaxFee THEN "ok" ELSE "low"
+\* the class of a burn value under the minimums configured NOW (the driver picks a real value of the same class):
+\* midlo = min_mint <= v < min_burn, midhi = min_burn < v < min_mint
+ValName(v) == IF v = 0 THEN "zero"
+              ELSE IF v < minBurn THEN (IF v >= minMint THEN "midlo" ELSE "below")
+              ELSE IF v = minBurn THEN "min"
+              ELSE IF v < minMint THEN "midhi" ELSE "above"
+AmtName(a) == IF a >= minMint /\ a >= MaxFee THEN "ok" ELSE "low"
+\* a configured minimum is named relative to the shipped one: lo | base | hi
+MinName(v) == IF v < MinBurn THEN "lo" ELSE IF v = MinBurn THEN "base" ELSE "hi"
 
+CfgStep(w, v) == [op |-> "cfg", a |-> w, v |-> MinName(v)]
 BurnStep(c, e, v) == [op |-> "burn", c |-> c, eth |-> e, v |-> ValName(v)]
 MintStep(c, p) == [op |-> "mint", c |-> c, rcv |-> p.rcv, n |-> p.n, amt |-> AmtName(p.amt),
                    sigs |-> [i \in 1..Len(p.sigs) |-> SigName(p.sigs[i])]]
@@ -32,6 +42,10 @@ AllBurns == {<<c, e, v>> : c \in Client, e \in Eth \cup {NoEth}, v \in {1, 2, 3}
 OneBurn == {<<"c1", "e1", 2>>}
 A3Ops == {"a3"}
 NoOps == {}
+\* the owner raises / lowers one of the two minimums
+ApartCfgs == {<<"min_burn", 3>>, <<"min_mint", 1>>, <<"min_mint", 3>>, <<"min_burn", 1>>}
+ApartCfgs2 == {<<"min_burn", 3>>, <<"min_mint", 1>>}
+NoCfgs == {}
 SweepOnly == {"sweep"}
 HistOnly == {"hist"}
 Both == {"sweep", "hist"}
@@ -43,7 +57,7 @@ G_Sweep == /\ mode = "sweep" /\ hist = <<>>
                 Mint("c1", p) /\ hist' = <<MintStep("c1", p)>>
            /\ UNCHANGED mode
 G_Burn == /\ mode = "hist" /\ Len(hist) < GenLen
-          /\ \E b \in GBurns : Burn(b[1], b[2], b[3]) /\ last'.ok = (b[3] >= MinBurn /\ b[2] # NoEth)
+          /\ \E b \in GBurns : Burn(b[1], b[2], b[3]) /\ last'.ok = (b[3] >= minBurn /\ b[2] # NoEth)
                                /\ hist' = Append(hist, BurnStep(b[1], b[2], b[3]))
           /\ UNCHANGED mode
 G_Mint == /\ mode = "hist" /\ Len(hist) < GenLen
@@ -53,9 +67,12 @@ G_Auth == /\ mode = "hist" /\ Len(hist) < GenLen
           /\ \E a \in GAuthOps : \/ Register(a) /\ hist' = Append(hist, [op |-> "add", a |-> a])
                                  \/ Delete(a) /\ hist' = Append(hist, [op |-> "del", a |-> a])
           /\ UNCHANGED mode
-GNext == G_Sweep \/ G_Burn \/ G_Mint \/ G_Auth
+G_Cfg == /\ mode = "hist" /\ Len(hist) < GenLen
+         /\ \E g \in GCfgs : SetMin(g[1], g[2]) /\ hist' = Append(hist, CfgStep(g[1], g[2]))
+         /\ UNCHANGED mode
+GNext == G_Sweep \/ G_Burn \/ G_Mint \/ G_Auth \/ G_Cfg
 GSpec == GInit /\ [][GNext]_gvars
 \* one state per history: the model's nondeterminism (fee, payee) does not multiply behaviours
-GView == <<auth, minted, burnNonce, hist, mode>>
+GView == <<auth, minted, burnNonce, minBurn, minMint, hist, mode>>
 GPrint == hist = <<>> \/ PrintT(<<"BEHAVIOUR", ToJson(hist)>>)
 =============================================================================
